@@ -358,7 +358,8 @@ class System(ManagerSystem):
 
 # ---------------------------------------------------------------------- (E) term level
 KEYS = ["a", "s", "f", "s_a", "a.b", "a']['b", "s['a']", "x y", "é", 0, 1, -1, 10, 2 ** 64 + 5, -(2 ** 70), 2 ** 31]
-CONSTS = [0, 1, -1, 2, 7, -3, 0.5, -2.5, 1e10, 1e-7, -1e-3, 123456789, 2.0, -0.0, 0.0]
+CONSTS = [0, 1, -1, 2, 7, -3, 0.5, -2.5, 1e10, 1e-7, -1e-3, 123456789, 2.0, -0.0, 0.0,
+          1 / 3, 0.1 + 0.2, 2 ** 0.5]      # floats that need 16-17 significant digits to print exactly
 
 
 def term_world():
